@@ -256,6 +256,8 @@ pub fn scalars(tier: Tier, seed: u64) -> Vec<N> {
         nhex(&"aa".repeat(32)) % r,
         two(200) + n(1),
         two(200) - n(1),
+        two(64) - n(1),                 // one full limb of ones
+        (two(64) - n(1)) << 64,         // a full limb of ones above a zero limb
     ];
     let g = generic(r, seed, 0x5ca1a5, 17);
     v.push(g[0].clone());
